@@ -47,7 +47,8 @@ ASSUMPTIONS = [
     "single faults are enumerated exhaustively per sampled world; pairs are sampled",
     "no fsync / power-loss durability claim is checked (the property makes none)",
 ]
-PROBES = ["rename_fails_after_all_writes", "first_write_fails", "last_patch_corrupted",
+PROBES = ["recovery_update_after_fault", "stale_new_file_present", "bulk_world_over_8k",
+          "rename_fails_after_all_writes", "first_write_fails", "last_patch_corrupted",
           "local_version_occurs_twice", "empty_to_nonempty", "nonempty_to_empty",
           "sha256_only_index", "window_excludes_local", "patch_chain_len>=3",
           "full_download_path", "up_to_date_path", "foreign_local", "absent_local",
@@ -119,7 +120,7 @@ def _mutate(rng, lines, uniq):
             a = rng.randrange(len(lines))
             b = min(len(lines), a + rng.randint(1, 2))
             lines[a:b] = _gen_lines(rng, rng.randint(1, 2), uniq)
-    return lines[:12]
+    return lines[:12] if len(lines) < 40 else lines
 
 
 def generate(seed, run, tier):
@@ -146,8 +147,18 @@ def generate(seed, run, tier):
                  + rw.choice(["", "\n"])}
     else:
         local = {"kind": "version", "v": rw.randint(0, n)}
+    if rs.random() < (0.04 if tier == "quick" else 0.08):
+        # bulk world: payloads larger than urllib's 8 KiB transfer block
+        for v in versions:
+            for k in range(260):
+                uniq[0] += 1
+                v.insert(rw.randrange(len(v) + 1), "bulk %d %032x" % (uniq[0], rw.getrandbits(128)))
+        versions[:] = [list(v) for v in versions]
     world = {"versions": versions, "families": families, "window": window, "fields": fields,
              "extra_field": rs.random() < 0.3, "trailing_blank": rs.random() < 0.3,
+             "index_ws": rs.choice([" ", " ", "  ", "\t", " \t "]),
+             "index_trailing_ws": rs.random() < 0.2,
+             "stale_new": rs.choice([None, None, None, "stale left-over\n"]),
              "local": local,
              "verbose": rs.random() < 0.3}
     npairs = 0 if tier == "quick" else 12
@@ -267,14 +278,16 @@ def build_repo(world, faults):
     blocks = {}
     for fam in world["families"]:
         cur = _text(vs[-1]).encode()
-        blocks[fam + "-Current"] = " %s %d" % (_h(fam, cur), len(cur))
+        ws = world.get("index_ws", " ")
+        tw = " " if world.get("index_trailing_ws") else ""
+        blocks[fam + "-Current"] = " %s%s%d%s" % (_h(fam, cur), ws, len(cur), tw)
         hist = []
         pats = []
         for i in range(lo, n):
             data = _text(vs[i]).encode()
-            hist.append(" %s %d %s" % (_h(fam, data), len(data), names[i]))
-            pats.append(" %s %d %s" % (_h(fam, patch_hash_src[i]), len(patch_hash_src[i]),
-                                       names[i]))
+            hist.append(" %s%s%d%s%s%s" % (_h(fam, data), ws, len(data), ws, names[i], tw))
+            pats.append(" %s%s%d%s%s%s" % (_h(fam, patch_hash_src[i]), ws,
+                                          len(patch_hash_src[i]), ws, names[i], tw))
         blocks[fam + "-History"] = "\n" + "\n".join(hist) if hist else ""
         blocks[fam + "-Patches"] = "\n" + "\n".join(pats) if pats else ""
     for f in index_ops:
@@ -388,6 +401,16 @@ def _clean(d):
             os.unlink(p)
 
 
+def _leftovers(ldir, local_path, world):
+    left = sorted(x for x in os.listdir(ldir) if x != "Packages")
+    if (world.get("stale_new") and "Packages.new" in left
+            and _read(local_path + ".new") == world["stale_new"].encode()):
+        # the pre-existing left-over of an earlier crash, untouched by this update (which
+        # never reached its write path), is not a temporary file of this update
+        left.remove("Packages.new")
+    return left
+
+
 def run_one(world, faults, log=None, out=None, transport="sim", judge=True):
     """Execute update_file once.  Returns a result dict; raises Violation.
 
@@ -414,6 +437,11 @@ def run_one(world, faults, log=None, out=None, transport="sim", judge=True):
     if before is not None:
         fd = os.open(local_path, os.O_WRONLY | os.O_CREAT | os.O_TRUNC, 0o644)
         os.write(fd, before)
+        os.close(fd)
+    if world.get("stale_new") is not None:
+        # a left-over from an earlier, crashed update
+        fd = os.open(local_path + ".new", os.O_WRONLY | os.O_CREAT | os.O_TRUNC, 0o644)
+        os.write(fd, world["stale_new"].encode())
         os.close(fd)
     files, fetch_faults, info = build_repo(world, faults)
     net.reset(files, fetch_faults)
@@ -453,7 +481,7 @@ def run_one(world, faults, log=None, out=None, transport="sim", judge=True):
     finally:
         tempfile.tempdir = None
     after = _read(local_path)
-    leftovers = sorted(x for x in os.listdir(ldir) if x != "Packages")
+    leftovers = _leftovers(ldir, local_path, world)
     tmp_left = sorted(os.listdir(tdir))
     fetched = [(u[len(REMOTE):], o) for (u, o) in net.log]
     fired = []
@@ -482,6 +510,29 @@ def run_one(world, faults, log=None, out=None, transport="sim", judge=True):
                 fetched, fired, res["journal"])
     if judge:
         _judge(world, faults, res, before, after, current, exc)
+        if exc is not None and faults:
+            # bounded liveness: once faults stop, ONE further update converges
+            net.reset(build_repo(world, [])[0], {})
+            sink2 = io.StringIO()
+            tempfile.tempdir = tdir
+            exc2 = None
+            ret2 = None
+            try:
+                with SimFS(ldir, FaultPlan([])), contextlib.redirect_stdout(sink2):
+                    try:
+                        ret2 = ds.update_file(REMOTE, local_path)
+                    except Exception as e:   # pylint: disable=broad-except
+                        exc2 = e
+            finally:
+                tempfile.tempdir = None
+            after2 = _read(local_path)
+            left2 = _leftovers(ldir, local_path, world)
+            if exc2 is not None or after2 != current or left2 or os.listdir(tdir) or \
+                    ret2 != [l + "\n" for l in vs[-1]]:
+                _fail("no-convergence-after-faults-stopped", faults, res,
+                      second_update_exception=repr(exc2), local_is_current=after2 == current,
+                      leftovers_after_second=left2)
+            res["recovered"] = True
     return res
 
 
@@ -688,6 +739,12 @@ def _probes(out, world, faults, res):
                 out.probe("empty_to_nonempty")
             if vs[v] and not vs[-1]:
                 out.probe("nonempty_to_empty")
+    if res.get("recovered"):
+        out.probe("recovery_update_after_fault")
+    if world.get("stale_new") is not None and not faults:
+        out.probe("stale_new_file_present")
+    if not faults and len(vs[-1]) > 200:
+        out.probe("bulk_world_over_8k")
     for f in fired:
         if f[0] == "fs" and f[1] == "rename":
             out.probe("rename_fails_after_all_writes")
